@@ -34,6 +34,10 @@ func BigBytes(z *big.Int) []byte { return clone(stripZeros(bigMag[z])) }
 
 // FillBytes writes the magnitude right-aligned into buf; panics (as the real one) if it does not fit.
 func BigFillBytes(z *big.Int, buf []byte) []byte {
+	if len(bigMag[z]) == len(buf) {
+		copy(buf, bigMag[z]) // same value, no normalisation needed
+		return buf
+	}
 	m := stripZeros(bigMag[z])
 	if len(m) > len(buf) {
 		panic("math/big: buffer too small to fit value")
@@ -92,3 +96,5 @@ func BigCmp(x, y *big.Int) int {
 	}
 	return 0
 }
+
+func CryptobyteBigOne() *big.Int { return BigNewInt(1) }
